@@ -1184,3 +1184,43 @@ func pureModuleFn(f *ssa.Function, depth int) bool {
 	pureMemo[f] = pure
 	return pure
 }
+
+// lowerBoundFact: the branch fact (cond, truth) implies v >= the returned constant.
+func lowerBoundFact(cond ssa.Value, truth bool, v ssa.Value) (int64, bool) {
+	b, ok := cond.(*ssa.BinOp)
+	if !ok {
+		return 0, false
+	}
+	op := b.Op
+	var cv ssa.Value
+	if b.X == v {
+		cv = b.Y
+	} else if b.Y == v {
+		cv = b.X
+		op = flipOp(op)
+	} else {
+		return 0, false
+	}
+	c, okc := constInt(cv)
+	if !okc {
+		return 0, false
+	}
+	if !truth {
+		op = negOp(op)
+	}
+	switch op {
+	case token.GTR:
+		return c + 1, true
+	case token.GEQ, token.EQL:
+		return c, true
+	}
+	return 0, false
+}
+
+// flowsFromConstInt: an integer constant c occurs among the values v is computed from.
+func flowsFromConstInt(v ssa.Value, c int64) bool {
+	return flowsFrom(v, func(x ssa.Value) bool {
+		k, ok := constInt(x)
+		return ok && k == c
+	})
+}
